@@ -43,6 +43,11 @@ class ConclusionSelector(LogicalBinaryOperator, ABC):
         """
         if not conclusions:
             return
+        if isinstance(self._parent_, ConclusionSelector):
+            # an enclosing selector may still override these conclusions, only the outermost
+            # selector remembers what has been concluded
+            self._conclusion_.update(conclusions)
+            return
         required_vars = HashedIterable()
         for conclusion in conclusions:
             vars_ = conclusion._unique_variables_.filter(
